@@ -103,7 +103,7 @@ def process_outputs(
     """Process Skip Mode Outputs:
 
     * By default, all required outputs will be generated plus succeeded
-      if success is optional.
+      if success is optional (or failed, if failure is required).
     * The outputs submitted and started are always produced and do not
       need to be defined in outputs.
     * If outputs is specified and does not include either
@@ -118,15 +118,20 @@ def process_outputs(
 
     conf_outputs = list(rtconfig['skip']['outputs']) if rtconfig else []
 
+    # Take the failure pathway if told to, or (by default) if the task's
+    # outputs cannot be completed without failing, e.g. "foo:failed => bar":
+    fail = TASK_OUTPUT_FAILED in conf_outputs or (
+        not conf_outputs
+        and TASK_OUTPUT_FAILED in set(
+            itask.state.outputs.iter_required_messages()
+        )
+    )
+
     # Send the rest of our outputs, unless they are succeeded or failed,
     # which we hold back, to prevent warnings about pre-requisites being
     # unmet being shown because a "finished" output happens to come first.
     for message in itask.state.outputs.iter_required_messages(
-        disable=(
-            TASK_OUTPUT_SUCCEEDED
-            if TASK_OUTPUT_FAILED in conf_outputs
-            else TASK_OUTPUT_FAILED
-        )
+        disable=(TASK_OUTPUT_SUCCEEDED if fail else TASK_OUTPUT_FAILED)
     ):
         trigger = itask.state.outputs._message_to_trigger[message]
         # Send message unless it be succeeded/failed.
@@ -143,7 +148,7 @@ def process_outputs(
         if trigger in conf_outputs
     )
 
-    if TASK_OUTPUT_FAILED in conf_outputs:
+    if fail:
         result.add(TASK_OUTPUT_FAILED)
     else:
         result.add(TASK_OUTPUT_SUCCEEDED)
